@@ -80,19 +80,67 @@ Print Assumptions C08_every_operation_hypotheses_satisfiable.
    lookups are pairwise coherent - two lookups that address the same cache entry build the same
    operation, built operations have a hashable operationId, and the id scan completes when a
    lookup by id occurs - each access returns what it returns on a fresh schema object: same path,
-   method, raw and resolved definition and parameter containers (everything but the recorded scope). *)
+   method, raw and resolved definition and parameter containers (everything but the recorded scope,
+   for which see the strict variant below). *)
 Theorem C08_cache_refines_fresh_partial : forall v doc accs,
   coherent v doc accs = true ->
   map result_core (run v doc empty_cache accs) = map (fun a => result_core (fresh v doc a)) accs.
 Proof. exact cache_refines_fresh. Qed.
 Print Assumptions C08_cache_refines_fresh_partial.
 
-(* ... hence the same observable views (label, per-location JSON Schemas, body alternatives), for any conv *)
+(* With the recorded scope: under strict coherence (lookups that address the same cache entry build
+   EQUAL operations, definition.scope included) the results are equal to the fresh ones as values, hence
+   also the observed views (label, scope, per-location JSON Schemas, body alternatives) for any conv. *)
+Theorem C08_cache_refines_fresh_strict_partial : forall v doc accs,
+  coherent_strict v doc accs = true ->
+  run v doc empty_cache accs = map (fresh v doc) accs.
+Proof. exact cache_refines_fresh_strict. Qed.
+Print Assumptions C08_cache_refines_fresh_strict_partial.
+
 Theorem C08_cache_refines_fresh_views_partial : forall conv v doc accs,
-  coherent v doc accs = true ->
+  coherent_strict v doc accs = true ->
   map (result_view_of conv v) (run v doc empty_cache accs) = map (fun a => result_view_of conv v (fresh v doc a)) accs.
 Proof. exact cache_refines_fresh_views. Qed.
 Print Assumptions C08_cache_refines_fresh_views_partial.
+
+(* ... and strictness is needed: get_operation_by_reference records the URL of the reference as scope
+   and shares the cache entry of schema[path][method], which records the root scope *)
+Theorem C08_cache_refines_fresh_strict_refuted : exists doc accs,
+  run V30 doc empty_cache accs <> map (fresh V30 doc) accs
+  /\ coherent V30 doc accs = true /\ coherent_strict V30 doc accs = false
+  /\ exists o1 o2, nth_error (run V30 doc empty_cache accs) 1 = Some (ROp (Val o1))
+                   /\ fresh V30 doc (AGet p_a m_get) = ROp (Val o2) /\ o_scope o1 = ref_a_get /\ o_scope o2 = [].
+Proof. exists doc_good2, accs_ref_first. exact cache_strict_refuted. Qed.
+Print Assumptions C08_cache_refines_fresh_strict_refuted.
+
+Theorem C08_cache_strict_hypotheses_satisfiable :
+  coherent_strict V30 doc_good2 accs_good_strict = true /\
+  exists o, nth_error (run V30 doc_good2 empty_cache accs_good_strict) 1 = Some (ROp (Val o)) /\ List.length (o_query o) = 2%nat.
+Proof. exact coherent_strict_nonvacuous. Qed.
+Print Assumptions C08_cache_strict_hypotheses_satisfiable.
+
+(* The scope an operation records is its own: a lookup by path and method or by operationId records the
+   scope component of its traversal key (and the path and method of that key); a lookup by reference is
+   keyed under the root scope and records the URL the reference resolves at. *)
+Theorem C08_lookup_scope_is_own : forall v doc a tk idf rf o,
+  pgo v doc a = Some (tk, Val o, idf, rf) ->
+  match a with
+  | AByRef r => fst (fst tk) = [] /\ exists opj, resolve doc r = Val (o_scope o, opj)
+  | _ => o_scope o = fst (fst tk)
+  end /\ o_path o = snd (fst tk) /\ o_method o = snd tk.
+Proof. exact lookup_scope_is_key. Qed.
+Print Assumptions C08_lookup_scope_is_own.
+
+(* ... and the id scan records every operation with the scope, path item and definition of ITS OWN path:
+   the root scope for an inline path item whatever precedes it, the URL of the reference for a path item
+   behind $ref (also when the scan is interrupted: for the entries recorded so far). *)
+Theorem C08_id_scan_scope_is_own : forall doc paths defs x,
+  py_get_d doc k_paths (JObj []) = Val (JObj paths) ->
+  populate doc [] = (defs, x) -> forall k en, In (k, en) defs ->
+  exists pi, In (e_path en, pi) paths /\ resolve_path_item doc pi = Val (e_scope en, e_item en)
+             /\ exists kvs, py_items (e_item en) = Val kvs /\ In (e_method en, e_op en) kvs.
+Proof. exact populate_own. Qed.
+Print Assumptions C08_id_scan_scope_is_own.
 
 (* duplicated operationId: schema[/a][get] then get_operation_by_id(x) returns GET /a, a fresh schema returns GET /b *)
 Theorem C08_cache_refines_fresh_refuted : exists doc accs,
